@@ -295,6 +295,10 @@ fn build_sb(s: &Sb, env: &[u64]) -> SBld {
 }
 fn build(c: &Cmd, env0: &Env, aborts: &Aborts) -> C {
     match c {
+        // the ready-made constructors of command/mod.rs, when the command has exactly their shape
+        Cmd::New(Task::Ret, ex) if ex.is_empty() => C::done(),
+        Cmd::New(Task::Emit(t, e, k), ex) if ex.is_empty() && matches!(**k, Task::Ret) => C::event(Ev { tag: *t, val: e.eval(&env0.vars), maps: vec![] }),
+        Cmd::New(Task::Notify(t, e, k), ex) if ex.is_empty() && matches!(**k, Task::Ret) => C::notify_shell(Op { tag: *t, val: e.eval(&env0.vars) }).into(),
         Cmd::New(m, ex) => {
             let (m, e) = (m.clone(), env0.clone());
             let ab = aborts.clone();
